@@ -415,18 +415,61 @@ func genSeqCase(r *RNG, index int, thorough bool) seqCase {
 }
 
 func (c *Ctx) c19Seq() {
-	n := c.N(2000, 20000)
-	const batchSize = 40
-	self, err := os.Executable()
-	if err != nil {
-		fatalf("%v", err)
-	}
+	n := c.N(2000, 40000)
 	var cases []seqCase
 	for i := 0; i < n; i++ {
 		if !c.Want("seq", i) {
 			continue
 		}
 		cases = append(cases, genSeqCase(c.Rng("seq", i), i, c.Thorough()))
+	}
+	var suspects []int
+	if !c.Replay || c.OnlyStr == "seq" {
+		suspects = c.c19SeqRun("seq", cases)
+	}
+	// directed search: the same pipelines (stages, items, failure spec) under many more schedules, and with every
+	// single failure of the spec on its own
+	var directed []seqCase
+	addDirected := func(orig int) {
+		base := genSeqCase(c.Rng("seq", orig), orig, c.Thorough())
+		for rep := 0; rep < 40; rep++ {
+			d := base
+			d.Index = orig*100 + rep
+			r := c.Rng("seq-directed", d.Index)
+			d.PSeed = r.Next()
+			d.Heavy = rep%2 == 0
+			if rep >= 30 && len(base.Spec) > 0 {
+				d.Spec = [][2]int{base.Spec[rep%len(base.Spec)]}
+			}
+			if c.Want("seq-directed", d.Index) {
+				directed = append(directed, d)
+			}
+		}
+	}
+	if c.Replay && c.OnlyStr == "seq-directed" {
+		addDirected(c.OnlyIndex / 100)
+	} else if !c.Replay {
+		if len(suspects) > 8 {
+			suspects = suspects[:8]
+		}
+		for _, sidx := range suspects {
+			addDirected(sidx)
+		}
+		if len(directed) > 0 {
+			c.Notes = append(c.Notes, fmt.Sprintf("directed search: %d more schedules around %d pipelines on which code and model differ", len(directed), len(suspects)))
+		}
+	}
+	if len(directed) > 0 {
+		c.c19SeqRun("seq-directed", directed)
+	}
+}
+
+// c19SeqRun runs the cases in worker processes and checks them; it returns the indices of the cases with a finding.
+func (c *Ctx) c19SeqRun(stream string, cases []seqCase) []int {
+	const batchSize = 40
+	self, err := os.Executable()
+	if err != nil {
+		fatalf("%v", err)
 	}
 	var batches [][]seqCase
 	for off := 0; off < len(cases); off += batchSize {
@@ -438,7 +481,7 @@ func (c *Ctx) c19Seq() {
 	}
 	results := make([][]seqResult, len(batches))
 	hung := make([]bool, len(batches))
-	dir := filepath.Join(c.WorkDir, "seq")
+	dir := filepath.Join(c.WorkDir, stream)
 	os.MkdirAll(dir, 0o755)
 	parallel(len(batches), 8, func(b int) {
 		job := filepath.Join(dir, fmt.Sprintf("job%d.json", b))
@@ -455,13 +498,38 @@ func (c *Ctx) c19Seq() {
 		}
 		if ob, err := os.ReadFile(job + ".out"); err == nil {
 			json.Unmarshal(ob, &results[b])
+		} else if !pr.Timeout {
+			// the worker crashed (a panic in a goroutine of the code under test kills the process): run its cases one per process
+			for _, sc := range batches[b] {
+				one := filepath.Join(dir, fmt.Sprintf("job%d-%d.json", b, sc.Index))
+				writeJSON(one, []seqCase{sc})
+				env1 := []string{"C19_WORKER=" + one}
+				if b%3 != 2 {
+					env1 = append(env1, fmt.Sprintf("KNUT_VERIF_SEED=%d", c.Seed*1000+uint64(b)+1))
+				}
+				pr1 := runProc(60*time.Second, dir, env1, self)
+				var rs []seqResult
+				if ob, err := os.ReadFile(one + ".out"); err == nil {
+					json.Unmarshal(ob, &rs)
+				}
+				if len(rs) == 1 {
+					results[b] = append(results[b], rs[0])
+				} else {
+					out := "panic (worker crashed): " + clip(pr1.Stderr)
+					if pr1.Timeout {
+						out = "hang"
+					}
+					results[b] = append(results[b], seqResult{Index: sc.Index, Outcome: out})
+				}
+				os.Remove(one)
+				os.Remove(one + ".out")
+			}
 		}
 		os.Remove(job)
 		os.Remove(job + ".out")
 		os.Remove(trace)
 	})
 	bt := c.NewBatch()
-	defer bt.Flush()
 	for b, batch := range batches {
 		got := map[int]seqResult{}
 		for _, r := range results[b] {
@@ -474,7 +542,7 @@ func (c *Ctx) c19Seq() {
 			c.Evals++
 			if !ok {
 				// the worker died or hung before this case
-				c.Monitor("seq", sc.Index, "C19_terminates", in, !hung[b], "worker process hung (timeout) before or in this case")
+				c.Monitor(stream, sc.Index, "C19_terminates", in, !hung[b], "worker process hung (timeout) before or in this case")
 				continue
 			}
 			shape := "none"
@@ -483,11 +551,11 @@ func (c *Ctx) c19Seq() {
 			} else if len(sc.Spec) > 1 {
 				shape = "many"
 			}
-			c.Class(fmt.Sprintf("seq/n%s/m%s/fail-%s/%s", nbucket(sc.N), nbucket(sc.M), shape, strings.Fields(res.Outcome + " x")[0]))
+			c.Class(fmt.Sprintf(stream+"/n%s/m%s/fail-%s/%s", nbucket(sc.N), nbucket(sc.M), shape, strings.Fields(res.Outcome + " x")[0]))
 			if sc.Index < 3 {
-				c.Sample(map[string]any{"stream": "seq", "input": in, "impl": clip(res.Outcome), "trace": clip(res.LTrace)})
+				c.Sample(map[string]any{"stream": stream, "input": in, "impl": clip(res.Outcome), "trace": clip(res.LTrace)})
 			}
-			if !c.Monitor("seq", sc.Index, "C19_no_deadlock", in, res.Outcome != "hang" && !strings.HasPrefix(res.Outcome, "panic"), res.Outcome) {
+			if !c.Monitor(stream, sc.Index, "C19_no_deadlock", in, res.Outcome != "hang" && !strings.HasPrefix(res.Outcome, "panic"), res.Outcome) {
 				continue
 			}
 			implOK := strings.HasPrefix(res.Outcome, "ok")
@@ -502,14 +570,14 @@ func (c *Ctx) c19Seq() {
 						}
 					}
 				}
-				c.Compare("seq", sc.Index, "c19seq", in, res.Outcome, strings.TrimSpace(want))
+				c.Compare(stream, sc.Index, "c19seq", in, res.Outcome, strings.TrimSpace(want))
 			}, "c19seq", itoa(sc.N), itoa(sc.M), specField(sc.Spec))
 			// (2) the transition system under some schedule gives the same kind of outcome
 			bt.Add(func(model string) {
 				if implOK {
-					c.Compare("seq", sc.Index, "c19run", in, res.Outcome, strings.TrimSpace(model))
+					c.Compare(stream, sc.Index, "c19run", in, res.Outcome, strings.TrimSpace(model))
 				} else {
-					c.Compare("seq", sc.Index, "c19run", in, "error", strings.Fields(model + " x")[0])
+					c.Compare(stream, sc.Index, "c19run", in, "error", strings.Fields(model + " x")[0])
 				}
 			}, "c19run", itoa(sc.N), itoa(sc.M), specField(sc.Spec), itoa(int(sc.PSeed%100000)))
 			// (3) property predicate on the observed schedule: labelled trace
@@ -522,16 +590,26 @@ func (c *Ctx) c19Seq() {
 				lt = "-"
 			}
 			bt.Add(func(mon string) {
-				c.Monitor("seq", sc.Index, "C19_labelled_fifo/dependency (c19lmon)", in, mon == "ok", mon+" trace="+lt)
+				c.Monitor(stream, sc.Index, "C19_labelled_fifo/dependency (c19lmon)", in, mon == "ok", mon+" trace="+lt)
 			}, "c19lmon", itoa(sc.N), itoa(sc.M), exit, lt)
 			// (4) the hook's own trace
 			field, ordOK, _, _ := hookToField(res.Hook)
-			c.Monitor("seq", sc.Index, "sink ordinals", in, ordOK, res.Hook)
+			c.Monitor(stream, sc.Index, "sink ordinals", in, ordOK, res.Hook)
 			bt.Add(func(mon string) {
-				c.Monitor("seq", sc.Index, "C19_accept (c19mon, hook trace)", in, mon == "ok", mon+" trace="+field)
+				c.Monitor(stream, sc.Index, "C19_accept (c19mon, hook trace)", in, mon == "ok", mon+" trace="+field)
 			}, "c19mon", itoa(sc.N), itoa(sc.M), exit, field)
 		}
 	}
+	bt.Flush()
+	seen := map[int]bool{}
+	var suspects []int
+	for _, f := range c.Findings {
+		if f.Stream == stream && !seen[f.Index] {
+			seen[f.Index] = true
+			suspects = append(suspects, f.Index)
+		}
+	}
+	return suspects
 }
 
 // ---------------------------------------------------------------- journals for the processor matrix
@@ -1198,16 +1276,17 @@ type loaderJob struct {
 	cat   procResult // print of the concatenated single file (valid trees)
 }
 
+var c19TreeKinds = []string{"valid", "valid", "valid", "syntax", "model", "missing", "cycle", "dag"}
+
 func (c *Ctx) c19Loader() {
-	n := c.N(320, 1600)
-	kinds := []string{"valid", "valid", "valid", "syntax", "model", "missing", "cycle", "dag"}
+	n := c.N(320, 3000)
 	var jobs []*loaderJob
 	for i := 0; i < n; i++ {
 		if !c.Want("loader", i) {
 			continue
 		}
 		r := c.Rng("loader", i)
-		kind := kinds[i%len(kinds)]
+		kind := c19TreeKinds[i%len(c19TreeKinds)]
 		t := genTree(r, kind)
 		reps := 3
 		if kind != "valid" && kind != "dag" {
@@ -1219,8 +1298,48 @@ func (c *Ctx) c19Loader() {
 		}
 		jobs = append(jobs, &loaderJob{Index: i, Tree: t, Seeds: seeds, Race: i%4 == 1})
 	}
+	var suspects []int
+	if !c.Replay || c.OnlyStr == "loader" {
+		suspects = c.c19LoaderRun("loader", jobs)
+	}
+	// directed search: the trees on which something went wrong, under many more schedules, on both binaries
+	var directed []*loaderJob
+	addDirected := func(orig int) {
+		kind := c19TreeKinds[orig%len(c19TreeKinds)]
+		for rep := 0; rep < 4; rep++ {
+			idx := orig*100 + rep
+			if !c.Want("loader-directed", idx) {
+				continue
+			}
+			t := genTree(c.Rng("loader", orig), kind)
+			var seeds []uint64
+			for s := 0; s < 8; s++ {
+				seeds = append(seeds, c.Seed*15485863+uint64(idx*11+s)+1)
+			}
+			directed = append(directed, &loaderJob{Index: idx, Tree: t, Seeds: seeds, Race: rep%2 == 1})
+		}
+	}
+	if c.Replay && c.OnlyStr == "loader-directed" {
+		addDirected(c.OnlyIndex / 100)
+	} else if !c.Replay {
+		if len(suspects) > 6 {
+			suspects = suspects[:6]
+		}
+		for _, sidx := range suspects {
+			addDirected(sidx)
+		}
+		if len(directed) > 0 {
+			c.Notes = append(c.Notes, fmt.Sprintf("directed search: %d more runs around %d include trees on which code and model differ", len(directed)*9, len(suspects)))
+		}
+	}
+	if len(directed) > 0 {
+		c.c19LoaderRun("loader-directed", directed)
+	}
+}
+
+func (c *Ctx) c19LoaderRun(stream string, jobs []*loaderJob) []int {
 	raceBin := c.KnutBin + ".race"
-	dir := filepath.Join(c.WorkDir, "loader")
+	dir := filepath.Join(c.WorkDir, stream)
 	parallel(len(jobs), 12, func(k int) {
 		jb := jobs[k]
 		jd := filepath.Join(dir, itoa(jb.Index))
@@ -1253,7 +1372,6 @@ func (c *Ctx) c19Loader() {
 		}
 	})
 	bt := c.NewBatch()
-	defer bt.Flush()
 	for _, jb := range jobs {
 		jb := jb
 		i := jb.Index
@@ -1261,7 +1379,7 @@ func (c *Ctx) c19Loader() {
 		files := map[string]string{}
 		in := map[string]any{"kind": jb.Tree.Kind, "fs": jb.Tree.fsField(), "root": jb.Tree.Files[0].Path, "race": jb.Race}
 		_ = files
-		c.Class(fmt.Sprintf("loader/%s/files%s/race%v", jb.Tree.Kind, nbucket(len(jb.Tree.Files)), jb.Race))
+		c.Class(fmt.Sprintf(stream+"/%s/files%s/race%v", jb.Tree.Kind, nbucket(len(jb.Tree.Files)), jb.Race))
 		all := append([]procResult{jb.base}, jb.runs...)
 		var implOutcomes []string
 		for k, pr := range all {
@@ -1269,14 +1387,14 @@ func (c *Ctx) c19Loader() {
 			if k > 0 {
 				in2 = map[string]any{"kind": jb.Tree.Kind, "fs": jb.Tree.fsField(), "root": jb.Tree.Files[0].Path, "race": jb.Race, "KNUT_VERIF_SEED": jb.Seeds[k-1]}
 			}
-			if !c.Monitor("loader", i, "C19_no_deadlock (loader terminates)", in2, !pr.Timeout, "timeout: knut print hung") {
+			if !c.Monitor(stream, i, "C19_no_deadlock (loader terminates)", in2, !pr.Timeout, "timeout: knut print hung") {
 				implOutcomes = append(implOutcomes, "hang")
 				continue
 			}
-			c.Monitor("loader", i, "no data race reported", in2, !strings.Contains(pr.Stderr, "DATA RACE"), clip(pr.Stderr))
-			c.Monitor("loader", i, "no panic", in2, !strings.Contains(pr.Stderr, "panic:") && !strings.Contains(pr.Stderr, "goroutine "), clip(pr.Stderr))
+			c.Monitor(stream, i, "no data race reported", in2, !strings.Contains(pr.Stderr, "DATA RACE"), clip(pr.Stderr))
+			c.Monitor(stream, i, "no panic", in2, !strings.Contains(pr.Stderr, "panic:") && !strings.Contains(pr.Stderr, "goroutine "), clip(pr.Stderr))
 			if pr.Exit != 0 {
-				c.Monitor("loader", i, "an error is reported, not success", in2, strings.TrimSpace(pr.Stderr) != "" && pr.Stdout == "", "exit "+itoa(pr.Exit)+" stdout "+clip(pr.Stdout))
+				c.Monitor(stream, i, "an error is reported, not success", in2, strings.TrimSpace(pr.Stderr) != "" && pr.Stdout == "", "exit "+itoa(pr.Exit)+" stdout "+clip(pr.Stdout))
 				implOutcomes = append(implOutcomes, "error")
 				continue
 			}
@@ -1290,12 +1408,12 @@ func (c *Ctx) c19Loader() {
 				// property predicate on the real output: exactly the union of the directives of all files, days in order
 				obs := dirsField(ds)
 				bt.Add(func(mon string) {
-					c.Monitor("loader", i, "C19_no_loss_no_dup (c19loadmon)", in2, mon == "ok", mon+" observed="+clip(obs))
+					c.Monitor(stream, i, "C19_no_loss_no_dup (c19loadmon)", in2, mon == "ok", mon+" observed="+clip(obs))
 				}, "c19loadmon", dirsField(jb.Tree.allDirs()), obs)
 			}
 		}
 		if i < 2 {
-			c.Sample(map[string]any{"stream": "loader", "input": in, "impl": clip(implOutcomes[0])})
+			c.Sample(map[string]any{"stream": stream, "input": in, "impl": clip(implOutcomes[0])})
 		}
 		// model vs implementation: the census (or the fact that it fails), for every run
 		bt.Add(func(model string) {
@@ -1304,16 +1422,26 @@ func (c *Ctx) c19Loader() {
 				want = "error"
 			}
 			for k, o := range implOutcomes {
-				c.Compare("loader", i, "c19load", map[string]any{"input": in, "run": k}, o, want)
+				c.Compare(stream, i, "c19load", map[string]any{"input": in, "run": k}, o, want)
 			}
 		}, "c19load", jb.Tree.fsField(), "0")
 		if jb.Tree.Kind == "valid" && !jb.cat.Timeout {
 			ds, err := parsePrint(jb.cat.Stdout)
 			ok := err == nil && jb.cat.Exit == 0 && censusOf(ds) == implOutcomes[0]
-			c.Monitor("loader", i, "include tree loads the same journal as the concatenated file", in, ok,
+			c.Monitor(stream, i, "include tree loads the same journal as the concatenated file", in, ok,
 				fmt.Sprintf("tree: %s\nsingle file (exit %d): %s %s", clip(implOutcomes[0]), jb.cat.Exit, clip(censusOf(ds)), clip(jb.cat.Stderr)))
 		}
 	}
+	bt.Flush()
+	seen := map[int]bool{}
+	var suspects []int
+	for _, f := range c.Findings {
+		if f.Stream == stream && !seen[f.Index] {
+			seen[f.Index] = true
+			suspects = append(suspects, f.Index)
+		}
+	}
+	return suspects
 }
 
 // ---------------------------------------------------------------- runner
@@ -1323,22 +1451,22 @@ func runC19(c *Ctx) {
 		fatalf("race binary %s.race missing (props entry needs \"race\": True)", c.KnutBin)
 	}
 	t0 := time.Now()
-	if !c.Replay || c.OnlyStr == "seq" {
+	if !c.Replay || c.OnlyStr == "seq" || c.OnlyStr == "seq-directed" {
 		c.c19Seq()
 	}
 	c.Extra["seq_s"] = time.Since(t0).Seconds()
 	t0 = time.Now()
 	if !c.Replay || c.OnlyStr == "trace" {
-		c.c19Proc("trace", false, c.N(100, 500), c.N(5, 6), c.N(2, 3))
+		c.c19Proc("trace", false, c.N(100, 1000), c.N(5, 6), c.N(2, 3))
 	}
 	c.Extra["trace_s"] = time.Since(t0).Seconds()
 	t0 = time.Now()
 	if !c.Replay || c.OnlyStr == "race" {
-		c.c19Proc("race", true, c.N(24, 80), c.N(7, 10), c.N(2, 3))
+		c.c19Proc("race", true, c.N(24, 150), c.N(7, 10), c.N(2, 3))
 	}
 	c.Extra["race_s"] = time.Since(t0).Seconds()
 	t0 = time.Now()
-	if !c.Replay || c.OnlyStr == "loader" {
+	if !c.Replay || c.OnlyStr == "loader" || c.OnlyStr == "loader-directed" {
 		c.c19Loader()
 	}
 	c.Extra["loader_s"] = time.Since(t0).Seconds()
